@@ -20,6 +20,8 @@ import (
 
 	"verifharness/hx"
 
+	"github.com/mitchellh/mapstructure"
+
 	"github.com/projecteru2/core/resource/plugins/cpumem"
 	"github.com/projecteru2/core/resource/plugins/cpumem/schedule"
 	cmtypes "github.com/projecteru2/core/resource/plugins/cpumem/types"
@@ -58,13 +60,14 @@ type workload struct {
 
 type kase struct {
 	ID       string         `json:"id"`
-	Op       string         `json:"op"` // plans | deploy | realloc | capacity
+	Op       string         `json:"op"` // plans | deploy | realloc | capacity | remap
 	Base     int            `json:"base"`
 	MaxShare int            `json:"maxShare"`
 	Node     node           `json:"node"`
 	Req      request        `json:"req"`
 	Count    int            `json:"count"`
 	Origin   *workload      `json:"origin,omitempty"`
+	Wls      map[string]*workload `json:"wls,omitempty"` // remap: workloads on the node
 	Impl     map[string]any `json:"impl"`
 }
 
@@ -134,6 +137,26 @@ func wlOut(w *cmtypes.WorkloadResource) workload {
 	return o
 }
 
+type engine struct {
+	CPU   int64          `json:"cpu"`
+	Mem   int64          `json:"mem"`
+	Map   map[string]int `json:"map"`
+	NUMA  string         `json:"numa"`
+	Remap bool           `json:"remap"`
+}
+
+func epOut(raw plugintypes.EngineParams) (engine, error) {
+	e := &cmtypes.EngineParams{}
+	if err := mapstructure.Decode(raw, e); err != nil {
+		return engine{}, err
+	}
+	o := engine{CPU: milli(e.CPU), Mem: e.Memory, Map: map[string]int{}, NUMA: e.NUMANode, Remap: e.Remap}
+	for k, v := range e.CPUMap {
+		o.Map[k] = v
+	}
+	return o, nil
+}
+
 func (w *workload) raw() plugintypes.WorkloadResource {
 	return plugintypes.WorkloadResource{"cpu_request": cores(w.CPU), "cpu_limit": cores(w.CPULim), "memory_request": w.Mem,
 		"memory_limit": w.MemLim, "cpu_map": cpCPU(w.Map), "numa_memory": cpMem(w.NUMAMem), "numa_node": w.NUMA}
@@ -180,6 +203,24 @@ func envFailed(impl map[string]any) bool {
 	return impl["seterr"] == "other" || impl["err"] == "other" || impl["commit"] == "other"
 }
 
+// genRemapWorkloads: a few workloads (bound and unbound, different limits) for CalculateRemap
+func genRemapWorkloads(r *hx.Rng, n *node, base int) map[string]*workload {
+	ws := map[string]*workload{}
+	for i, cnt := 0, r.Range(1, 4); i < cnt; i++ {
+		cpu := int64(r.Range(1, 8)) * 250
+		w := &workload{CPU: cpu, CPULim: cpu + int64(r.Range(0, 4))*250, Mem: int64(r.Range(1, 50)), Map: map[string]int{}, NUMAMem: map[string]int64{}}
+		w.MemLim = w.Mem + int64(r.Range(0, 20))
+		if r.Chance(30) {
+			w.Map[cpuID(r.Intn(len(n.Cap)))] = base
+		}
+		if len(n.NUMAMem) > 0 && r.Chance(30) {
+			w.NUMA = "n0"
+		}
+		ws["w"+strconv.Itoa(i)] = w
+	}
+	return ws
+}
+
 func runOnce(t *testing.T, k *kase, deadline time.Duration) {
 	ctx := context.Background()
 	var res map[string]any
@@ -201,7 +242,7 @@ func runOnce(t *testing.T, k *kase, deadline time.Duration) {
 				out = append(out, map[string]any{"numa": pl.NUMANode, "map": map[string]int(pl.CPUMap)})
 			}
 			res = map[string]any{"plans": out}
-		case "deploy", "realloc", "capacity":
+		case "deploy", "realloc", "capacity", "remap":
 			info := k.Node.info()
 			if _, err := p.SetNodeResourceInfo(ctx, "n", rawRes(info.Capacity), rawRes(info.Usage)); err != nil {
 				res = map[string]any{"seterr": errClass(err)}
@@ -209,6 +250,28 @@ func runOnce(t *testing.T, k *kase, deadline time.Duration) {
 			}
 			rq := plugintypes.WorkloadResourceRequest{"cpu-bind": k.Req.Bind, "keep-cpu-bind": k.Req.Keep, "cpu-request": cores(k.Req.CPU),
 				"cpu-limit": cores(k.Req.CPULim), "memory-request": k.Req.Mem, "memory-limit": k.Req.MemLim}
+			if k.Op == "remap" {
+				in := map[string]plugintypes.WorkloadResource{}
+				for id, w := range k.Wls {
+					in[id] = w.raw()
+				}
+				resp, err := p.CalculateRemap(ctx, "n", in)
+				if err != nil {
+					res = map[string]any{"err": errClass(err)}
+					return
+				}
+				eps := map[string]engine{}
+				for id, raw := range resp.EngineParamsMap {
+					e, err := epOut(raw)
+					if err != nil {
+						res = map[string]any{"err": "other"}
+						return
+					}
+					eps[id] = e
+				}
+				res = map[string]any{"epm": eps}
+				return
+			}
 			if k.Op == "capacity" {
 				resp, err := p.GetNodesDeployCapacity(ctx, []string{"n"}, rq)
 				if err != nil {
@@ -237,11 +300,20 @@ func runOnce(t *testing.T, k *kase, deadline time.Duration) {
 					}
 					ws = append(ws, wlOut(w))
 				}
+				eps := []engine{}
+				for _, raw := range resp.EnginesParams {
+					e, err := epOut(raw)
+					if err != nil {
+						res = map[string]any{"err": "other"}
+						return
+					}
+					eps = append(eps, e)
+				}
 				commit := "ok"
 				if _, err := p.SetNodeResourceUsage(ctx, "n", nil, nil, resp.WorkloadsResource, true, true); err != nil {
 					commit = errClass(err)
 				}
-				res = map[string]any{"ws": ws, "commit": commit}
+				res = map[string]any{"ws": ws, "eps": eps, "commit": commit}
 			} else {
 				resp, err := p.CalculateRealloc(ctx, "n", k.Origin.raw(), rq)
 				if err != nil {
@@ -258,7 +330,17 @@ func runOnce(t *testing.T, k *kase, deadline time.Duration) {
 					res = map[string]any{"err": "other"}
 					return
 				}
-				res = map[string]any{"w": wlOut(w), "d": wlOut(d)}
+				e, err := epOut(resp.EngineParams)
+				if err != nil {
+					res = map[string]any{"err": "other"}
+					return
+				}
+				// commit the delta the way the cluster does (usage += delta), observing the plugin's own Validate
+				commit := "ok"
+				if _, err := p.SetNodeResourceUsage(ctx, "n", nil, nil, []plugintypes.WorkloadResource{resp.DeltaResource}, true, true); err != nil {
+					commit = errClass(err)
+				}
+				res = map[string]any{"w": wlOut(w), "d": wlOut(d), "ep": e, "commit": commit}
 			}
 		}
 	})
@@ -575,6 +657,17 @@ func corpus() []*kase {
 		mk("realloc", 100, -1, node{Cap: two, Use: map[string]int{"0": 100, "1": 0}, Mem: 1000, MemUse: 10, NUMA: map[string]string{"0": "n0", "1": "n0", "2": "n1"},
 			NUMAMem: map[string]int64{"n0": 500}, NUMAMemUse: map[string]int64{"n0": 10}}, request{Keep: true}, 1,
 			&workload{CPU: 1000, CPULim: 1000, Mem: 10, MemLim: 10, Map: map[string]int{"0": 100}, NUMA: "n0", NUMAMem: map[string]int64{"n0": 10}}),
+		// realloc with memory above the NUMA node's free memory that fits the node: two bound 1-core/1024 workloads on
+		// NUMA node n0 (2048), the first asks +1024 under keep-cpu-bind -> it must not stay on n0 with 2048 booked
+		mk("realloc", 100, -1, node{Cap: map[string]int{"0": 100, "1": 100, "2": 100, "3": 100}, Use: map[string]int{"0": 100, "1": 100, "2": 0, "3": 0}, Mem: 8192, MemUse: 2048,
+			NUMA: map[string]string{"0": "n0", "1": "n0", "2": "n1", "3": "n1"}, NUMAMem: map[string]int64{"n0": 2048, "n1": 2048},
+			NUMAMemUse: map[string]int64{"n0": 2048, "n1": 0}}, request{Keep: true, Mem: 1024, MemLim: 1024}, 1,
+			&workload{CPU: 1000, CPULim: 1000, Mem: 1024, MemLim: 1024, Map: map[string]int{"0": 100}, NUMA: "n0", NUMAMem: map[string]int64{"n0": 1024}}),
+		// realloc pushing the limits below the unchanged requests: cpu 2/2, mem 1024/1024, cpu-limit -1, memory-limit -512:
+		// Validate raises the limits back; the engine must get the recorded limits (2 cpu / 1024)
+		mk("realloc", 100, -1, node{Cap: map[string]int{"0": 100, "1": 100, "2": 100}, Use: map[string]int{"0": 100, "1": 100, "2": 0}, Mem: 8192, MemUse: 1024},
+			request{Keep: true, CPULim: -1000, MemLim: -512}, 1,
+			&workload{CPU: 2000, CPULim: 2000, Mem: 1024, MemLim: 1024, Map: map[string]int{"0": 100, "1": 100}, NUMAMem: map[string]int64{}}),
 		// D23: fractional workload moved by keep-bind realloc
 		mk("realloc", 100, -1, node{Cap: two, Use: map[string]int{"0": 100, "1": 50}, Mem: 1000, MemUse: 10},
 			request{Keep: true}, 1, &workload{CPU: 1500, CPULim: 1500, Mem: 10, MemLim: 10, Map: map[string]int{"0": 100, "1": 50}, NUMAMem: map[string]int64{}}),
@@ -649,11 +742,13 @@ func TestGen(t *testing.T) {
 		case "C33":
 			op = hx.Pick(r, "realloc", "realloc", "realloc", "plans")
 		case "C04":
-			op = hx.Pick(r, "plans", "deploy", "deploy")
+			op = hx.Pick(r, "plans", "deploy", "deploy", "realloc")
 		case "C05":
 			op = hx.Pick(r, "plans", "deploy", "realloc")
 		case "C06":
 			op = hx.Pick(r, "plans", "plans", "deploy", "realloc", "capacity")
+		case "C31":
+			op = hx.Pick(r, "deploy", "realloc", "realloc", "remap")
 		default:
 			op = hx.Pick(r, "plans", "deploy", "realloc")
 		}
@@ -680,6 +775,9 @@ func TestGen(t *testing.T) {
 				}
 			}
 			emit(k)
+		case "remap":
+			n := genNode(r, base, false)
+			emit(&kase{Op: op, Base: base, MaxShare: ms, Node: n, Count: 1, Wls: genRemapWorkloads(r, &n, base)})
 		case "deploy", "capacity":
 			n := genNode(r, base, false)
 			cpu := genCPU(r, base)
@@ -703,7 +801,10 @@ func TestGen(t *testing.T) {
 			whole := r.Chance(80)
 			n := genNode(r, base, whole)
 			var cpu int64
-			cpuDelta := prop != "C33" && r.Chance(45) // request/limit deltas (exact in float: multiples of 0.5 core)
+			cpuDelta := prop != "C33" && r.Chance(45)
+			if prop == "C31" {
+				cpuDelta = r.Chance(70)
+			} // request/limit deltas (exact in float: multiples of 0.5 core)
 			if cpuDelta {
 				cpu = int64(r.Range(1, 6)) * 500
 			} else if r.Chance(60) {
@@ -721,10 +822,20 @@ func TestGen(t *testing.T) {
 				continue
 			}
 			delta := hx.Pick[int64](r, 0, 0, 0, int64(r.Range(1, 10)), -int64(r.Range(0, int(mem))), n.Mem)
+			if w.NUMA != "" && r.Chance(35) { // memory-only delta above the NUMA node's free memory that still fits the node
+				freeN := n.NUMAMem[w.NUMA] - n.NUMAMemUse[w.NUMA]
+				if d := freeN + int64(r.Range(1, 5)); d > 0 && d <= n.Mem-n.MemUse {
+					delta = d
+				}
+			}
 			if r.Chance(6) {
 				overuseMemory(r, &n, mem+1, false)
 			}
 			rq := request{Keep: true, Mem: delta, MemLim: delta}
+			if r.Chance(15) { // memory limit delta that differs from the request delta, also pushing the limit below the request
+				rq.Mem = hx.Pick[int64](r, 0, 0, delta)
+				rq.MemLim = hx.Pick[int64](r, -int64(r.Range(1, int(mem)+1)), rq.Mem+int64(r.Range(1, 10)), -mem)
+			}
 			if cpuDelta {
 				half := func(lo, hi int) int64 { return int64(r.Range(lo, hi)) * 500 }
 				switch r.Intn(6) {
@@ -736,8 +847,12 @@ func TestGen(t *testing.T) {
 				case 2: // limit delta < request delta
 					rq.CPU = half(1, 4)
 					rq.CPULim = rq.CPU - half(1, 3)
-				case 3: // negative deltas
-					rq.CPU, rq.CPULim = -half(0, 3), -half(0, 3)
+				case 3: // negative deltas; limit pushed below the unchanged request (Validate raises it back)
+					if r.Chance(50) {
+						rq.CPU, rq.CPULim = 0, -half(1, 2)
+					} else {
+						rq.CPU, rq.CPULim = -half(0, 3), -half(0, 3)
+					}
 				case 4: // equal deltas
 					rq.CPU = half(-2, 4)
 					rq.CPULim = rq.CPU
